@@ -100,10 +100,23 @@ def lean_hash(cfg):
     return h.hexdigest()[:16]
 
 
+def restore_facts(cfg):
+    """after a VERIF_REPO run: regenerate the facts from /repo so no mutated facts stay in the tree"""
+    tr = cfg.get("translator")
+    if not tr:
+        return
+    exe = os.path.join(BIN, "translator-" + cfg["id"].lower())
+    if os.path.exists(exe):
+        sh([exe, "-repo", "/repo"] + tr["args"], cwd=ROOT, env=GOENV)
+
+
 def run_translator(cfg, notes):
     tr = cfg.get("translator")
     if not tr:
         return True, []
+    if ALT:
+        import atexit
+        atexit.register(restore_facts, cfg)
     outs = [os.path.join(LEAN, o) for o in tr["outputs"]]
     old = {}
     for o in outs:
